@@ -354,6 +354,11 @@ func (f *file) rewrite(n ast.Node) string {
 	case *ast.LabeledStmt:
 		return f.rewriteSelect(x.Stmt.(*ast.SelectStmt), x.Label.Name)
 	case *ast.SendStmt:
+		if f.unpublishedLocalChan(x) {
+			// the channel cannot be observed by any other goroutine yet: no scheduling point
+			f.stats["send-unpublished"]++
+			return f.renderPlain(x)
+		}
 		f.stats["send"]++
 		return fmt.Sprintf("{ %s.YieldOp(\"send\"); %s; %s.YieldOp(\"sent\") }", f.rt(), f.renderPlain(x), f.rt())
 	case *ast.UnaryExpr:
@@ -389,6 +394,92 @@ func (f *file) rewrite(n ast.Node) string {
 	}
 	f.bail(n, "internal: no rewrite")
 	return ""
+}
+
+// unpublishedLocalChan reports whether the channel of send is a local variable created by
+// make(chan ...) in the enclosing function that has not been used in any other way (stored,
+// passed, captured) before the send can execute: every non-send use lies after the outermost
+// loop that contains the send. Such a channel is invisible to other goroutines, so the send
+// needs no scheduling point (this matters for the 2048-element free-list fill of every
+// backend connection).
+func (f *file) unpublishedLocalChan(send *ast.SendStmt) bool {
+	id, ok := ast.Unparen(send.Chan).(*ast.Ident)
+	if !ok {
+		return false
+	}
+	obj, ok := f.info.Uses[id].(*types.Var)
+	if !ok || obj.IsField() || obj.Parent() == nil || obj.Parent() == obj.Pkg().Scope() {
+		return false
+	}
+	// enclosing function and outermost enclosing loop
+	var fn ast.Node
+	var outerLoop ast.Node
+	var path []ast.Node
+	ast.Inspect(f.f, func(n ast.Node) bool {
+		if n == nil {
+			path = path[:len(path)-1]
+			return false
+		}
+		path = append(path, n)
+		if n == ast.Node(send) {
+			for _, p := range path {
+				switch p.(type) {
+				case *ast.FuncDecl, *ast.FuncLit:
+					fn = p
+					outerLoop = nil
+				case *ast.ForStmt, *ast.RangeStmt:
+					if outerLoop == nil {
+						outerLoop = p
+					}
+				}
+			}
+		}
+		return true
+	})
+	if fn == nil {
+		return false
+	}
+	if obj.Pos() < fn.Pos() || obj.Pos() > fn.End() {
+		return false // captured from an outer function
+	}
+	barrier := send.End()
+	if outerLoop != nil {
+		if obj.Pos() > outerLoop.Pos() {
+			return false // declared inside the loop: keep it simple
+		}
+		barrier = outerLoop.End()
+	}
+	// the defining statement must be `x := make(chan ...)`
+	defOK := false
+	safe := map[*ast.Ident]bool{}
+	ast.Inspect(fn, func(n ast.Node) bool {
+		switch x := n.(type) {
+		case *ast.AssignStmt:
+			if x.Tok == token.DEFINE && len(x.Lhs) == 1 && len(x.Rhs) == 1 {
+				if l, ok := x.Lhs[0].(*ast.Ident); ok && f.info.Defs[l] == obj {
+					if c, ok := x.Rhs[0].(*ast.CallExpr); ok && f.isBuiltin(c, "make") {
+						defOK = true
+					}
+				}
+			}
+		case *ast.SendStmt:
+			if l, ok := ast.Unparen(x.Chan).(*ast.Ident); ok && f.info.Uses[l] == obj {
+				safe[l] = true
+			}
+		}
+		return true
+	})
+	if !defOK {
+		return false
+	}
+	okAll := true
+	ast.Inspect(fn, func(n ast.Node) bool {
+		if l, ok := n.(*ast.Ident); ok && f.info.Uses[l] == obj && !safe[l] && l.Pos() < barrier {
+			okAll = false
+		}
+		return true
+	})
+	return okAll
 }
 
 func (f *file) args(call *ast.CallExpr) string {
